@@ -401,6 +401,10 @@ class Catalogue:
                 self._exec(st, self.env, top=True)
             except _PyRaise as ex:
                 self.err(f"the statement raises {ex.name}: {ex.msg}", st)
+        # `from quantity.predefined import *` raises AttributeError for a name listed in __all__ but not bound
+        bound = set(self.env) | set(m.imports) | set(getattr(m, "globals", {})) | set(getattr(m, "functions", {})) \
+            | set(getattr(m, "classes", {}))
+        self.unbound_exports = [n for n in getattr(self, "exported", []) if n not in bound]
 
     # ------------------------------------------------------------ statements
     def _exec_block(self, body, env):
@@ -544,6 +548,8 @@ class Catalogue:
     def _assign(self, target, v, env):
         if isinstance(target, ast.Name):
             if target.id == "__all__":
+                if isinstance(v, (list, tuple)) and all(isinstance(x, str) for x in v):
+                    self.exported = list(v)
                 return
             env[target.id] = v
             if env is self.env:
